@@ -2,8 +2,8 @@ package main
 
 // Generators of channel crash (C01).
 //
-//	enum   every string over the token alphabet, in ranges (quick: lengths 0-4 over the full
-//	       alphabet A; thorough: length 5 over A and length 6 over the reduced alphabet B)
+//	enum   every string over the token alphabet, in ranges (lengths 0-4 over the full alphabet A,
+//	       475 k strings; thorough adds length 5 over the reduced alphabet B)
 //	mut    byte / token / tree mutations of /repo/tests/*.zy (a prefix of top-level forms of a
 //	       script, one to three mutations inside it)
 //	form   every special form, every reserved word, every name bound in the three
@@ -41,7 +41,7 @@ var crashArgs = []string{
 
 var crashHand = []string{
 	"(+ 1 (cond true (begin) 2))", "(list 1 ^~@(list) 3)", "(and)", "(or)", "{\"a\" \"\\q\"}",
-	"(read (str 2.0))", "(read \"2\")", "(read \"\")", "(read \"(\")", "(+ 1 (read \"\"))",
+	"(read (str 2.0))", "(read \"2\")", "(read \"\")", "(read \"(\")", "(+ 1 (read \"\"))", "(struct Car [(field Id: int64 e:0)]) (def w (Car Id: 1)) {w.Id = [(list 1)]}",
 	"(def x (read \"\")) x", "(cond (read \"\") 1 2)", "(str (read \"\"))", "(msgpack-map 1)",
 	"(msgpack-map)", "(msgpack-map a)", "(let)", "(cond)", "(for)", "(fn)", "(defn)", "(quote)",
 	"(begin)", "(newScope)", "(return)", "(+ 1 (begin))", "(+ 1 (newScope))", "(+ 1 (quote))",
@@ -137,7 +137,7 @@ func pow(b, e int) int64 {
 
 func crashGenEnum(g *Gen) {
 	emit := func(alpha string, length int, step int64) {
-		total := pow(len(crashAlphabets[alpha]), length)
+		total := pow(len(crashAlphabets[alpha].toks), length)
 		for from := int64(0); from < total; from += step {
 			to := from + step
 			if to > total {
@@ -148,18 +148,24 @@ func crashGenEnum(g *Gen) {
 			g.Count("enum-ranges")
 		}
 	}
-	maxA, maxB := 3, 0
-	if os.Getenv("VERIF_C01_ENUM") == "4" {
-		maxA = 4
-	}
-	if g.Thorough() {
-		maxA, maxB = 4, 5
-	}
-	for l := 0; l <= maxA; l++ {
+	// full token alphabet A (26 symbols) to length 4; the operator-extended alphabet C (35
+	// symbols) to length 3 (thorough: 4); token sequences inside ( ) [ ] { } (alphabets T U V,
+	// 14 tokens incl. = := \ & *) to 4 tokens (thorough: 5); thorough: reduced alphabet B to 5
+	for l := 0; l <= 4; l++ {
 		emit("A", l, 8192)
 	}
-	if maxB > 0 {
-		emit("B", maxB, 8192)
+	maxC, maxT := 3, 4
+	if g.Thorough() {
+		maxC, maxT = 4, 5
+		emit("B", 5, 8192)
+	}
+	for l := 1; l <= maxC; l++ {
+		emit("C", l, 8192)
+	}
+	for _, a := range []string{"T", "U", "V"} {
+		for l := 0; l <= maxT; l++ {
+			emit(a, l, 8192)
+		}
 	}
 }
 
@@ -327,10 +333,10 @@ func crashMutate(g *Gen, s string) (string, string) {
 		case 0:
 			b = append(b[:pos], b[pos+1:]...)
 		case 1:
-			alpha := crashAlphabets["A"]
+			alpha := crashAlphaA
 			b = append(b[:pos], append([]byte{alpha[r.Intn(len(alpha))]}, b[pos:]...)...)
 		case 2:
-			alpha := crashAlphabets["A"]
+			alpha := crashAlphaA
 			b[pos] = alpha[r.Intn(len(alpha))]
 		case 3:
 			b[pos] = byte(r.Intn(256))
@@ -532,7 +538,7 @@ func crashGenForms(g *Gen) {
 			cfg := set.cfg
 			// 0 arguments, in every context
 			for ci, ctx := range crashContexts {
-				if quick && ci > 0 && r.Intn(3) != 0 {
+				if quick && ci > 0 && r.Intn(4) != 0 {
 					continue
 				}
 				crashEmitText(g, "form-0", cfg, crashInCtx(ctx, call(name, nil)))
@@ -542,12 +548,12 @@ func crashGenForms(g *Gen) {
 			crashEmitText(g, "form-name", cfg, "(str "+name+")")
 			// 1 argument: every pool element (quick: a sample)
 			for _, a := range crashArgs {
-				if quick && r.Intn(4) != 0 {
+				if quick && r.Intn(5) != 0 {
 					continue
 				}
 				crashEmitText(g, "form-1", cfg, call(name, []string{a}))
 			}
-			n2, n3, nctx := 12, 8, 6
+			n2, n3, nctx := 8, 5, 4
 			if !quick {
 				n2, n3, nctx = 80, 40, 30
 			}
@@ -580,7 +586,7 @@ func crashGenHand(g *Gen) {
 			crashEmitText(g, "hand", cfg, t)
 		}
 		for _, ctx := range crashContexts[1:] {
-			if g.Thorough() || g.Rng.Intn(4) == 0 {
+			if g.Thorough() || g.Rng.Intn(6) == 0 {
 				crashEmitText(g, "hand-ctx", 's', crashInCtx(ctx, t))
 			}
 		}
@@ -613,18 +619,144 @@ var crashPairTemplates = []string{"(def a %1) (def a %2)", "(def a %1) (set a %2
 	"(def a [%1]) (aset a 0 %2) a", "(def h (hash k: %1)) (hset h k: %2) h", "{a = %1; a = %2}", "(def a %1) (== a %2)", "(def a %1) (< a %2)",
 	"(let [a %1] (def a %2))", "((fn [a] (def a %2)) %1)", "(def a %1) (json a)", "(def a %1) (msgpack a)", "(def a %1) (type? a) (str a) (copy a)",
 	"(def a (list %1 %2)) (str a)", "(hash %1 %2)", "(def h (hash)) (hset h %1 %2) (hget h %1)", "(append [%1] %2)", "(concat %1 %2)", "(cons %1 %2)",
-	"(mdef a b (list %1 %2)) [a b]", "{a, b = %1, %2}", "(aget %1 %2)", "(hget %1 %2)", "(%1 %2)", "(apply %1 %2)", "(map %1 %2)", "(slice %1 0 %2)"}
+	"(mdef a b (list %1 %2)) [a b]", "(struct S [(field f: int64 e:0) (field g: ([]string) e:1) (field p: (* S) e:2)]) (def w (S f: 1)) {w.f = %1} {w.g = %2} w",
+	"(struct S [(field f: int64 e:0) (field p: (* S) e:1)]) (def w (S f: 1)) (hset w f: %1) {w.p = %2} (str w)", "{a, b = %1, %2}", "(aget %1 %2)", "(hget %1 %2)", "(%1 %2)", "(apply %1 %2)", "(map %1 %2)", "(slice %1 0 %2)"}
 
 func crashGenPairs(g *Gen) {
 	r := g.Rng
 	for _, v1 := range crashArgs {
 		for _, v2 := range crashArgs {
 			for _, t := range crashPairTemplates {
-				if !g.Thorough() && r.Intn(12) != 0 {
+				if !g.Thorough() && r.Intn(30) != 0 {
 					continue
 				}
 				text := strings.ReplaceAll(strings.ReplaceAll(t, "%1", v1), "%2", v2)
 				crashEmitText(g, "pairs", 's', text)
+			}
+		}
+	}
+}
+
+// ---------------------------------------------------------------- statements inside function bodies × control forms
+
+// statement forms (declarations, binders, control, data constructors) usable inside a body
+// that has the local `n`
+var crashStatements = []string{
+	"(package scratch (def seen n))", "(package scratch { Seen := n })", "(struct Rec [(field a: int64 e:0)])",
+	"(func dbl [x:int64] [y:int64] (return (* 2 x)))", "(var vv int64)", "(defmac mm [a] ^(+ 1 ~a))", "(defn inner [x] (+ x 1))",
+	"(def loc n)", "(set loc n)", "(mdef p q (list n n))", "(let [z n] z)", "(letseq [z n y z] y)", "(newScope (def z n))",
+	"(begin (def z n))", "(for [(def i 0) (< i 2) (def i (+ i 1))] i)", "(for [(def i 0) (< i 2) (def i (+ i 1))] (break))",
+	"(for lp: [(def i 0) (< i 2) (def i (+ i 1))] (continue lp:))", "{z = n}", "{z := n + 1}", "{for i := 0; i < 2; i++ { z = i }}",
+	"{for k, v := range [1 2] { z = v }}", "(assert true)", "(cond (> n 5) 1 2)", "(and n 1)", "(quote (a b))", "^(1 ~n)",
+	"(macexpand (mm 1))", "(eval (quote (+ 1 1)))", "[n n]", "(hash a: n)", "{a: n}", "(fn [x] x)", "((fn [x] x) n)",
+	"(range k v (hash a: 1) (def kk k))", "(interface Iface [(func run [] [])])", "(method [p: (* Rec)] go [] [r:int64] (return 1))",
+	"(defmap dm)", "(str n)", "(msgmap (quote mmm) (list))", "(begin)", "(newScope)", "(return)", "(quote)",
+}
+
+// function shapes with a hole %s for one or two statements; every shape ends in calls
+var crashBodyShapes = []string{
+	"(defn w [n] %s n) (w 1) (w 2)",
+	"(defn w [n] %s (cond (> n 0) (w (- n 1)) n)) (w 1) (w 3)",
+	"(defn w [n] (let [m n] %s (cond (> m 0) (w (- m 1)) m))) (w 2)",
+	"(defn w [n] (cond (> n 0) (begin %s (w (- n 1))) n)) (w 2)",
+	"(defn w [n] (for [(def i 0) (< i 3) (def i (+ i 1))] %s (cond (> i 0) (break) nil)) n) (w 1)",
+	"(defn w [n] (for [(def i 0) (< i 3) (def i (+ i 1))] (cond (> i 1) (continue) nil) %s) n) (w 1)",
+	"(defn w [n] (for ol: [(def i 0) (< i 2) (def i (+ i 1))] (for [(def j 0) (< j 2) (def j (+ j 1))] %s (break ol:))) (cond (> n 0) (w (- n 1)) n)) (w 2)",
+	"(def n 1) (for [(def i 0) (< i 2) (def i (+ i 1))] %s (cond (> i 0) (break) nil))",
+	"(def n 1) (package pk %s (def Z 1)) pk.Z",
+	"(def n 1) (defn w [k] (package pk2 %s) (cond (> k 0) (w (- k 1)) k)) (w 1) (w 2)",
+	"(def w (fn [n] %s (newScope %s n))) (w 1)",
+	"(defn w [n & r] %s (cond (> n 0) (w (- n 1) 7 8) r)) (w 1) (w 2 3)",
+	"(defn w [#n] %s (cond (> n 0) (w (- n 1)) n)) (w 1)",
+}
+
+func crashGenBody(g *Gen) {
+	r := g.Rng
+	for _, st := range crashStatements {
+		for _, sh := range crashBodyShapes {
+			crashEmitText(g, "body-1", 's', strings.ReplaceAll(sh, "%s", st))
+		}
+	}
+	n2 := 600
+	if g.Thorough() {
+		n2 = 12000
+	}
+	for i := 0; i < n2; i++ {
+		a := crashStatements[r.Intn(len(crashStatements))]
+		b := crashStatements[r.Intn(len(crashStatements))]
+		sh := crashBodyShapes[r.Intn(len(crashBodyShapes))]
+		cfg := byte('s')
+		if r.Intn(5) == 0 {
+			cfg = 'x'
+		}
+		crashEmitText(g, "body-2", cfg, strings.ReplaceAll(sh, "%s", a+" "+b))
+	}
+}
+
+// ---------------------------------------------------------------- exotic fillers in every code position
+
+// things that are data, not code — improper lists first — placed where code is expected
+var crashFillers = []string{"(1 \\ 2)", "(a \\ b)", "(a = 1 \\ 2)", "(a := 1 \\ 2)", "(a b = 1 \\ 2)", "(a = \\ 2)", "(+ 1 \\ 2)",
+	"(f 1 \\ 2)", "(\\ 1)", "(a \\ )", "(def a 1 \\ 2)", "(quote a \\ b)", "(fn [x] x \\ 1)", "(a = 1)", "(a b = 1 2)", "(a = )", "(= 1)",
+	"(a.b = 1)", "(a := )", "{a + 1}", "{a: 1}", "{}", "[]", "()", "[a b]", "[a = 1]", "[1 \\ 2]", "\"s\"", "'c'", "a:", ".a", "a.b", "%a", "$a",
+	"&a", "*a", "#a", "?a", "!", "|", "<", "->", "~a", "~@a", "^a", "'a", "1.5", "nil", "=", ":=", "\\"}
+
+var crashHoleTemplates = []string{
+	"(def a 1)", "(set a 1)", "(mdef a b (list 1 2))", "(let [a 1 b 2] (+ a b))", "(letseq [a 1 b a] b)", "(fn [a b] (+ a b))",
+	"(defn f [a b] (+ a b))", "(defmac m [a] ^(+ 1 ~a))", "(cond (< 1 2) 3 (> 1 2) 4 5)", "(and 1 2 3)", "(or 1 2)", "(begin 1 2)",
+	"(newScope 1 2)", "(for [(def i 0) (< i 2) (def i (+ i 1))] i (break))", "(for lbl: [(def i 0) (< i 2) (def i (+ i 1))] (continue lbl:))",
+	"(quote (a b))", "(syntaxQuote (a ~b))", "(macexpand (m 1))", "(assert (== 1 1))", "(package p (def A 1))", "(return 1 2)",
+	"(struct S [(field a: int64 e:0)])", "(func f [a:int64] [b:int64] (return a))", "(var v int64)", "(hash a: 1 b: [2])",
+	"(list 1 2)", "[1 2]", "((fn [x] x) 1)", "(apply + [1 2])", "(map (fn [x] x) [1 2])", "(defn g [n] (cond (> n 0) (g (- n 1)) n)) (g 1)",
+	"{a = 1; b = a + 2}", "{a, b = 1, 2}", "{for i := 0; i < 2; i++ { a = i }}", "{if a < 1 { 2 } else { 3 }}", "(hset (hash) a: 1)",
+	"(aset [1 2] 0 3)", "(str 1 \"a\")", "(json (hash a: 1))", "(eval (quote (+ 1 2)))", "(range k v (hash a: 1) k)",
+}
+
+// every code position of a template: each atom and each bracket group
+func crashPositions(toks []string) [][2]int {
+	var out [][2]int
+	for i, t := range toks {
+		if strings.TrimSpace(t) == "" {
+			continue
+		}
+		switch t {
+		case "(", "[", "{", ")", "]", "}":
+		default:
+			out = append(out, [2]int{i, i})
+		}
+	}
+	out = append(out, crashGroups(toks)...)
+	return out
+}
+
+func crashGenHoles(g *Gen) {
+	r := g.Rng
+	for _, tpl := range crashHoleTemplates {
+		toks := crashTokens(tpl)
+		for _, pos := range crashPositions(toks) {
+			for _, f := range crashFillers {
+				if !g.Thorough() && r.Intn(8) != 0 {
+					continue
+				}
+				out := append(append(append([]string{}, toks[:pos[0]]...), f), toks[pos[1]+1:]...)
+				crashEmitText(g, "holes", 's', strings.Join(out, ""))
+			}
+		}
+		// the filler as an extra element after each position
+		for _, pos := range crashPositions(toks) {
+			if !g.Thorough() && r.Intn(8) != 0 {
+				continue
+			}
+			f := crashFillers[r.Intn(len(crashFillers))]
+			out := append(append(append([]string{}, toks[:pos[1]+1]...), " ", f), toks[pos[1]+1:]...)
+			crashEmitText(g, "holes-insert", 's', strings.Join(out, ""))
+		}
+	}
+	// the fillers themselves, bare and as operands / bodies
+	for _, f := range crashFillers {
+		for _, ctx := range crashContexts {
+			if g.Thorough() || r.Intn(3) == 0 {
+				crashEmitText(g, "holes-ctx", 's', crashInCtx(ctx, f))
 			}
 		}
 	}
@@ -654,14 +786,14 @@ func crashGenInfix(g *Gen) {
 	for i := 0; i < n; i++ {
 		emit([]string{crashInfixToks[i]})
 		for j := 0; j < n; j++ {
-			if g.Thorough() || r.Intn(3) == 0 {
+			if g.Thorough() || r.Intn(5) == 0 {
 				emit([]string{crashInfixToks[i], crashInfixToks[j]})
 			}
 		}
 	}
-	samples := 4000
+	samples := 1500
 	if g.Thorough() {
-		samples = 80000
+		samples = 40000
 	}
 	for k := 0; k < samples; k++ {
 		l := 3 + r.Intn(6)
@@ -710,7 +842,7 @@ func crashGenRepl(g *Gen) {
 		}
 	}
 	for l := 0; l <= 2; l++ {
-		total := pow(len(crashAlphabets["A"]), l)
+		total := pow(len(crashAlphabets["A"].toks), l)
 		for i := int64(0); i < total; i++ {
 			s := enumString(crashAlphabets["A"], l, i)
 			if !strings.Contains(s, "\n") {
@@ -748,6 +880,12 @@ func crashGen(g *Gen) {
 	if want("form") {
 		crashGenForms(g)
 	}
+	if want("body") {
+		crashGenBody(g)
+	}
+	if want("holes") {
+		crashGenHoles(g)
+	}
 	if want("pairs") {
 		crashGenPairs(g)
 	}
@@ -755,7 +893,7 @@ func crashGen(g *Gen) {
 		crashGenInfix(g)
 	}
 	if want("mut") {
-		n := 2500
+		n := 2000
 		if g.Thorough() {
 			n = 60000
 		}
